@@ -203,6 +203,12 @@ pub fn check2(c: &Roll2Case, stat: Stat2, obs: &mut Obs) -> CheckResult {
 // ---------------------------------------------------------------------------------------------
 // matrix evaluation (any backend / output container) of a RollCase
 
+#[cfg(feature = "matrix")]
+pub use self::mat::*;
+
+#[cfg(feature = "matrix")]
+mod mat {
+use super::*;
 use crate::backends::{Backend, OutKind};
 use crate::gen::{Mat2Case, MatCase};
 use crate::matrix::{self, Req};
@@ -353,4 +359,5 @@ pub fn backend_classes(bk: Backend, ok: OutKind, label: &'static str, out_buf: b
     obs.class(label);
     obs.class(ok.label());
     obs.class_if(out_buf, "out_buffer_path");
+}
 }
